@@ -3,6 +3,8 @@ import RV.Gen.C18LayoutC
 import RV.Gen.C18LayoutPy
 import RV.Gen.C18Options
 import RV.Gen.C18Ref
+import RV.Gen.C18Protos
+import RV.Gen.C18Descr
 /-
   C18 — the Python classes mirror the C structures and options exactly.
 
@@ -116,6 +118,92 @@ theorem c18_no_shadow_full_iff_findings_closed :
     exported symbol `family prefix ++ option name`, which the header declares, into a C member that is
     a function pointer -/
 theorem c18_fn_options : pyFnOptRows.all (fnOptOk cTab cFunctions fnOptMap) = true := by decide +kernel
+
+/-! ### full signatures (callbacks, declared restypes, foreign call sites) -/
+
+/-- every foreign call site is sound: prototype known, declared restype (in force at the site) compatible with the
+    C return type, or no restype where the C function returns int/void or the result is discarded; argument count and
+    statically visible argument kinds fit the C parameters -/
+def CallsFull : Prop := badCalls classMap cProtos pyCalls = []
+
+/-- the extraction of prototypes / callbacks / declarations / call sites found what it must find -/
+theorem c18_proto_counts :
+    cProtos.length = cProtoCount ∧ cCallbacks.length = cCallbackCount ∧ pyCallbacks.length = pyCallbackCount ∧
+    pyRestypeDecls.length = pyRestypeDeclCount ∧ pyCalls.length = pyCallCount ∧
+    floorProtos ≤ cProtos.length ∧ floorCallbacks ≤ cCallbacks.length ∧ floorCallbacks ≤ pyCallbacks.length ∧
+    floorRestypeDecls ≤ pyRestypeDecls.length ∧ floorCalls ≤ pyCalls.length := by decide +kernel
+
+/-- every CFUNCTYPE field has the return kind, the number of arguments and the argument kinds (width, signedness,
+    double, pointee class, by-value structure through the class map) of the C function-pointer member it lies over -/
+theorem c18_callback_signatures : pyCallbacks.all (callbackOk T cCallbacks) = true := by decide +kernel
+
+/-- … and every C function-pointer member of a mirrored structure has such a field -/
+theorem c18_callbacks_all_mirrored :
+    cCallbacks.all (fun c => classMap.any (fun e => nameEq e.2.1 c.owner) →
+      pyCallbacks.any (fun p => optNameEq (structOf classMap p.owner) c.owner &&
+                                optNameEq (pairedMember T p.owner p.field) c.field)) = true := by decide +kernel
+
+/-- every `clibrebound.f.restype = T` names a function the headers declare and T mirrors its C return type
+    (double, integer of the same width and signedness, by-value structure through the class map, typed or untyped pointer) -/
+theorem c18_restype_declarations_match : pyRestypeDecls.all (declOk classMap cProtos) = true := by decide +kernel
+
+/-- no attribute other than `restype` is ever assigned on a foreign function (a misspelt `restype` is silently ignored
+    by ctypes), except at the sites of known findings -/
+theorem c18_no_stray_function_attributes_partial :
+    pyOtherFnAttrs.all (fun a => memPair a.1 a.2.1 knownCallExceptions) = true := by decide +kernel
+
+/-- every call site is sound, except those of known findings -/
+theorem c18_foreign_calls_sound_partial :
+    subsetPairs (badCalls classMap cProtos pyCalls) knownCallExceptions = true := by decide +kernel
+
+theorem c18_calls_full_iff_findings_closed :
+    CallsFull ↔ (knownCallExceptions.filter (fun x => memPair x.1 x.2 (badCalls classMap cProtos pyCalls))).length = 0 := by
+  unfold CallsFull; decide +kernel
+
+/-- what a sound call site means (∀ tables): the function is declared, and either a restype compatible with the C
+    return type is in force, or none is and the C function returns `int`/`void`/a signed 4-byte enum or the value is unused -/
+theorem c18_call_sound_meaning (cm : ClassMap) (protos : List Proto) (c : CallSite) (h : callWhy cm protos c = none) :
+    ∃ p, (p ∈ protos ∧ p.name = c.fn) ∧
+      ((∃ r, c.restype = some r ∧ kindOk cm p.ret r = true) ∨
+       (c.restype = none ∧ (c.used = false ∨ retDefaultOk p.ret = true))) :=
+  callWhy_none_sound cm protos c h
+
+/-! ### enumerations are mirrored exactly (width and value range) -/
+
+/-- every ctypes integer laid over a C enumeration member has the member's width and can represent every enumerator
+    (so `REB_STATUS`, which has negative values, needs a signed field; an unsigned enumeration may be mirrored by either
+    signedness only because all its values fit) -/
+theorem c18_enum_fields_representable : classMap.all (classEnumFieldsOk T cEnumRows) = true := by decide +kernel
+
+/-- the matcher does reject an unsigned field over an enumeration with negative values -/
+example : enumFieldOk [(n!"E", n!"A", -1)] (⟨n!"x", 0, 4, .int false 4⟩, [⟨n!"x", 0, 4, .enm n!"E" true 4⟩]) = false := by
+  decide +kernel
+
+/-! ### the binary field descriptor list and the binary warnings table -/
+
+/-- what `binary_field_descriptor_list()` returns is, entry by entry (id, dtype, name, offset, offset_N, element size) and
+    in length, the C array `reb_binary_field_descriptor_list` of the loaded library read through the C-side layout,
+    up to and including the terminating entry -/
+theorem c18_descriptor_list_mirrored :
+    descrListEq pyDescriptors cDescriptors = true ∧ nameEq (lastName cDescriptors) n!"end" = true ∧
+    cDescriptors.length = cDescriptorCount ∧ floorDescriptors ≤ cDescriptors.length := by decide +kernel
+
+/-- descriptor ids and names are unique and every dtype is an enumerator value of the C `dtype` enumeration -/
+theorem c18_descriptor_ids_names_dtypes :
+    distinctBy (fun a b => a.1 == b.1) cDescriptors = true ∧
+    distinctBy (fun a b => nameEq a.2.2.1 b.2.2.1) cDescriptors = true ∧
+    cDescriptors.all (fun d => (itemsOf n!"reb_binary_field_descriptor.dtype" cEnumRows).any (fun e => e.2 == d.2.1)) = true := by
+  decide +kernel
+
+/-- every row of BINARY_WARNINGS is exactly one enumerator of `enum reb_simulation_binary_error_codes`, is treated as
+    a major error iff that enumerator is an `_ERROR_` one, and its message contains the phrase committed for the
+    enumerator; ids are distinct; every non-zero C code has a row -/
+theorem c18_binary_warnings_table :
+    pyWarnings.all (warnOk (itemsOf n!"reb_simulation_binary_error_codes" cEnumRows) warnKeywords) = true ∧
+    distinctBy (fun a b => a.2.1 == b.2.1) pyWarnings = true ∧
+    (itemsOf n!"reb_simulation_binary_error_codes" cEnumRows).all
+      (fun e => e.2 == 0 || pyWarnings.any (fun w => w.2.1 == e.2)) = true ∧
+    pyWarnings.length = pyWarningCount ∧ floorWarnings ≤ pyWarnings.length := by decide +kernel
 
 /-! ### what the matcher's verdict means — for arbitrary tables -/
 
